@@ -98,14 +98,21 @@ func genC14(rt *rapid.T, h *hh.H, cfg model.GenCfg) c14Case {
 	}
 	g := model.NewGen(rt, cfg)
 	root := g.GenNode(cfg.MaxDepth, true)
+	if rapid.IntRange(0, 5).Draw(rt, "ptrroot") == 0 {
+		root = &model.Node{Kind: model.KPtr, Elem: root, Req: rapid.Bool().Draw(rt, "notnil")}
+	}
 	root.Number()
 	typed := g.GenTyped(root)
 	c := c14Case{Root: root}
 	c.Logical, _ = g.Render(root, typed, "root")
 	trimStrings(&c.Logical)
 	nested := false
+	top := root
+	if top.Kind == model.KPtr {
+		top = top.Elem
+	}
 	root.Walk(func(n *model.Node) {
-		if n != root && n.Kind == model.KStruct {
+		if n != top && n.Kind == model.KStruct {
 			nested = true
 		}
 	})
